@@ -150,7 +150,31 @@ impl Engine for C02 {
             .enumerate()
             .map(|(i, n)| Phase::new(n, json!({"frag": i, "thorough": false})))
             .collect();
+        v.push(Phase::new(
+            "kind-agnostic expressions of <= 2 constructors x 27 contexts, judged where the reference gives a meaning",
+            json!({"agnostic": 2}),
+        ));
+        v.push(Phase::new(
+            "kind-agnostic expressions of 3 constructors x 27 contexts, judged where the reference gives a meaning",
+            json!({"agnostic": 3}),
+        ));
+        v.push(Phase::new(
+            "annotation matrix: 17 keys x 14 value shapes x 9 positions x 8 targets, judged where the reference gives a meaning",
+            json!({"matrix": true}),
+        ));
+        v.push(Phase::new(
+            "two modules: function bodies <= 2 x arguments <= 2 x 6 use sites, judged where the reference gives a meaning",
+            json!({"two": 2}),
+        ));
         if tier == Tier::Thorough {
+            v.push(Phase::new(
+                "kind-agnostic expressions of 4 constructors x 27 contexts, judged where the reference gives a meaning",
+                json!({"agnostic": 4}),
+            ));
+            v.push(Phase::new(
+                "two modules: function bodies of 3 x arguments <= 2 x 6 use sites, judged where the reference gives a meaning",
+                json!({"two": 3}),
+            ));
             for i in frags::HAS_NEXT_BOUND {
                 v.push(Phase::new(
                     &format!("{} (next bound)", frags::NAMES[i]),
@@ -161,6 +185,62 @@ impl Engine for C02 {
         v
     }
     fn run_phase(&self, phase: &Phase, sink: &mut Sink) {
+        if let Some(k) = phase.param["agnostic"].as_u64() {
+            let k = k as usize;
+            let all = crate::space::agnostic_exprs(k);
+            let sizes: Vec<usize> = if k == 2 { vec![1, 2] } else { vec![k] };
+            let mut idx = 0u64;
+            for sz in sizes {
+                for e in all[sz].iter() {
+                    for c in 0..crate::space::N_CONTEXTS {
+                        if sink.mine(idx) {
+                            if sink.expired() {
+                                return;
+                            }
+                            let p = crate::space::context(c, e);
+                            sink.visit(idx, || program_json(&p, &print(&p).texts), |_| judge(&p, false));
+                        }
+                        idx += 1;
+                    }
+                }
+            }
+            return;
+        }
+        if phase.param["matrix"].as_bool() == Some(true) {
+            for i in 0..crate::space::ann_case_count() {
+                let idx = i as u64;
+                if sink.mine(idx) {
+                    if sink.expired() {
+                        return;
+                    }
+                    let p = crate::space::ann_case(i);
+                    sink.visit(idx, || program_json(&p, &print(&p).texts), |_| judge(&p, false));
+                }
+            }
+            return;
+        }
+        if let Some(kb) = phase.param["two"].as_u64() {
+            let kb = kb as usize;
+            let all = crate::space::agnostic_exprs(kb.max(2));
+            let bodies: Vec<&E> = if kb == 2 { all[1].iter().chain(all[2].iter()).collect() } else { all[kb].iter().collect() };
+            let args: Vec<&E> = (1..=2).flat_map(|s| all[s].iter()).collect();
+            let mut idx = 0u64;
+            for b in bodies.iter() {
+                for a in args.iter() {
+                    for site in 0..crate::space::N_SITES {
+                        if sink.mine(idx) {
+                            if sink.expired() {
+                                return;
+                            }
+                            let p = crate::space::two_module(b, a, site);
+                            sink.visit(idx, || program_json(&p, &print(&p).texts), |_| judge(&p, false));
+                        }
+                        idx += 1;
+                    }
+                }
+            }
+            return;
+        }
         let i = phase.param["frag"].as_u64().unwrap() as usize;
         let thorough = phase.param["thorough"].as_bool().unwrap();
         let frag = frags::fragment(i, thorough);
@@ -186,7 +266,7 @@ impl Engine for C02 {
         }
     }
     fn rule(&self) -> String {
-        "kind-directed fragments F1 schema algebra, F2 contents x ranges (status x media x headers x body)^<=n in three spellings, F3 transfers and relations, F4 URI templates and concat, F5 declarations/functions/scoping under all statement permutations, F6 recursion (all assignments of 27/40 body forms to 2/3 declarations, rec in functions, imported recursion), F7 @references, F8 modules, F9 annotations (every key at every position the language defines), F10 collisions; each enumerated exhaustively with the others at their simplest value. Oracle: abstract document of the emitted YAML == document of the independent reference evaluator (exact, modulo names of implicit components). Non-trivial = accepted with a reference meaning; distinct = distinct YAML texts".into()
+        "kind-directed fragments F1 schema algebra, F2 contents x ranges (status x media x headers x body)^<=n in three spellings, F3 transfers and relations, F4 URI templates and concat, F5 declarations/functions/scoping under all statement permutations, F6 recursion (all assignments of 27/40 body forms to 2/3 declarations, rec in functions, imported recursion), F7 @references, F8 modules, F9 annotations (every key at every position the language defines), F10 collisions, F11 every closed recursion term; each enumerated exhaustively with the others at their simplest value; plus the generated spaces of C01 (kind-agnostic expressions of <= 3, thorough 4, constructors x 27 contexts; the annotation matrix; the two-module products), judged wherever the reference gives the program a meaning. Oracle: abstract document of the emitted YAML == document of the independent reference evaluator (exact, modulo names of implicit components). Non-trivial = accepted with a reference meaning; distinct = distinct YAML texts".into()
     }
     fn assumptions(&self) -> Vec<String> {
         vec![
